@@ -182,3 +182,16 @@ V("c18-lookup-not-normalised", "C18", "fire", "C18.R5", ("model", "            r
 V("c18-twin-reorder-appends", "C18", "twin", None, ("model", "        if identifier is not None:\n            self._id_map[identifier].append(record)\n        self._records.append(record)", "        self._records.append(record)\n        if identifier is not None:\n            self._id_map[identifier].append(record)"))
 V("c18-twin-slice-copy", "C18", "twin", None, ("model", "        return list(self._records)\n\n    #  Bundle configurations", "        return self._records[:]\n\n    #  Bundle configurations"))
 V("c18-twin-setdefault", "C18", "twin", None, ("model", "            self._id_map[identifier].append(record)\n        self._records.append(record)", "            self._id_map.setdefault(identifier, []).append(record)\n        self._records.append(record)"))
+
+# ------------------------------------------------------------------------------------------------ round-2 seed rules
+V("c12-shallow-map-copy", "C12", "fire", "C12.R1", ("model", "        return PROV_REC_CLS[self.get_type()](\n            self._bundle, self.identifier, self.attributes\n        )", "        record = PROV_REC_CLS[self.get_type()](self._bundle, self.identifier)\n        record._attributes = self._attributes.copy()\n        return record"))
+V("c12-twin-deep-map-copy", "C12", "twin", None, ("model", "        return PROV_REC_CLS[self.get_type()](\n            self._bundle, self.identifier, self.attributes\n        )", "        record = PROV_REC_CLS[self.get_type()](self._bundle, self.identifier)\n        record._attributes = defaultdict(set, {k: set(v) for k, v in self._attributes.items()})\n        return record"))
+V("c12-unified-keeps-source-bundle", "C12", "fire", "C12.R5", ("model", "            unified_bundle = bundle.unified()\n            document.add_bundle(unified_bundle)", "            unified_bundle = bundle.unified() if len(bundle) > 1 else bundle\n            document.add_bundle(unified_bundle)"))
+V("c12-twin-unified-inline", "C12", "twin", None, ("model", "            unified_bundle = bundle.unified()\n            document.add_bundle(unified_bundle)", "            document.add_bundle(bundle.unified())"))
+V("c13-membership-as-presence", "C13", "fire", "C13.R3", ("model", "            if attr in self._attributes and self._attributes[attr]:\n                # Formal attributes always have single values", "            if attr in self._attributes:\n                # Formal attributes always have single values"))
+V("c13-twin-membership-len", "C13", "twin", None, ("model", "            if attr in self._attributes and self._attributes[attr]:\n                # Formal attributes always have single values", "            if attr in self._attributes and len(self._attributes[attr]) > 0:\n                # Formal attributes always have single values"))
+V("c13-closure-mints-on-document", "C13", "fire", "C13.R1", ("json", "        return r._identifier if r._identifier else id_generator.get_anon_id(r)", "        return r._identifier if r._identifier else bundle._namespaces.get_anonymous_identifier()"))
+V("c16-move-inside-with", "C16", "fire", "C16.R5", ("model", "            stream = os.fdopen(fd, \"wb\")\n            serializer.serialize(stream, **args)\n            stream.close()\n            if hasattr(shutil, \"move\"):\n                shutil.move(name, path)", "            with os.fdopen(fd, \"wb\") as stream:\n                serializer.serialize(stream, **args)\n                shutil.move(name, path)\n            if False:\n                pass"))
+V("c16-twin-with-then-move", "C16", "twin", None, ("model", "            stream = os.fdopen(fd, \"wb\")\n            serializer.serialize(stream, **args)\n            stream.close()\n", "            with os.fdopen(fd, \"wb\") as stream:\n                serializer.serialize(stream, **args)\n"))
+V("c17-twin-with-then-move", "C17", "twin", None, ("model", "            stream = os.fdopen(fd, \"wb\")\n            serializer.serialize(stream, **args)\n            stream.close()\n", "            with os.fdopen(fd, \"wb\") as stream:\n                serializer.serialize(stream, **args)\n"))
+V("c15-saxutils-escape-attr", "C15", "fire", "C15.R1", ("dot", "from html import escape", "from xml.sax.saxutils import escape"))
